@@ -204,6 +204,9 @@ class NativeBackend(BackendBase):
     def get_field(self, obj, field):
         return obj.__dict__[field]
 
+    def get_public(self, obj, name):
+        return list(getattr(obj, name))
+
     def has_field(self, obj, field):
         return field in obj.__dict__
 
